@@ -94,9 +94,9 @@ func VerifC11Extract() {
 	if verifrt.Param("family", 0) == 1 {
 		// symlink-chain family: link targets that pass through earlier symlinks
 		must(os.MkdirAll(filepath.Join(dirPath, "s"), 0o755))
-		names = []string{"d/a", "d/s/u", "d/x"}
-		links = []string{"..", "s/u/../../victim", "s/u/../a", "a", "x"}
-		types = []byte{tar.TypeReg, tar.TypeSymlink}
+		names = []string{"d/a", "d/s/u", "d/x", "d/x/victim"}
+		links = []string{"..", "s/u/../../victim", "s/u/../..", "a", dirPath + "/s/u/../../victim"}
+		types = []byte{tar.TypeReg, tar.TypeSymlink, tar.TypeLink}
 	}
 	var buf bytes.Buffer
 	tw := tar.NewWriter(&buf)
